@@ -26,6 +26,9 @@ type c04Mix struct {
 	AfterChunk int       `json:"after_chunk"` // the mix request is served once this many run-phase chunks were delivered and consumed
 	Chans      []int     `json:"chans"`       // feedback channel indices (odd)
 	Fractions  []float64 `json:"fractions"`
+	// Reconf: before this mix request a client sends ConfigureLanceroSource while Cringe's globals file announces this other
+	// NSAMP; the source is running, so the request must be refused and change nothing (0: no such request)
+	Reconf int `json:"reconf_nsamp,omitempty"`
 }
 
 type c04Gap struct {
@@ -401,6 +404,14 @@ func c04RunOn(ls *LanceroSource, c c04Case) (v vVerdict) {
 		return vFailf("startrun", "StartRun: %v", err)
 	}
 	startRel := card.arm() // bytes discarded by StartRun's alignment
+	ls.sourceStateLock.Lock()
+	ls.sourceState = Active // what Start() records once StartRun has succeeded
+	ls.sourceStateLock.Unlock()
+	defer func() {
+		ls.sourceStateLock.Lock()
+		ls.sourceState = Inactive
+		ls.sourceStateLock.Unlock()
+	}()
 
 	// ---- play CoreLoop's part: take blocks; serve mix requests at the scripted points -------------
 	type blk struct {
@@ -411,6 +422,7 @@ func c04RunOn(ls *LanceroSource, c c04Case) (v vVerdict) {
 	framesGot := 0
 	mixServed := 0
 	mixAtFrame := []int{} // output frame index from which mix request i is in force
+	refusedReconf := false
 	deadline := time.After(40 * time.Second)
 	ch := ls.getNextBlock()
 	done := card.done
@@ -437,6 +449,16 @@ loop:
 			}
 			// the reader is idle and every emitted frame has arrived: the outstanding getNextBlock goroutine can only serve the mix request
 			m := c.Mix[mixServed]
+			if m.Reconf >= 1 && m.Reconf <= 16 && m.Reconf != c.Nsamp {
+				cgb2, _ := json.Marshal(map[string]int{"SETT": 1, "seqln": c.Rows, "lsync": lsync, "testpattern": 0, "propagationdelay": 0, "NSAMP": m.Reconf, "carddelay": 0, "XPT": 0})
+				os.WriteFile(cg, cgb2, 0o644)
+				rerr := ls.Configure(&LanceroSourceConfig{FiberMask: 0xffff, ActiveCards: []int{0}, CardDelay: []int{1}, FirstRow: 1})
+				os.WriteFile(cg, cgb, 0o644)
+				if rerr == nil {
+					return vFailf("configure-accepted-while-running", "ConfigureLanceroSource was accepted while the source is running")
+				}
+				refusedReconf = true
+			}
 			cur, err := ls.ConfigureMixFraction(&MixFractionObject{ChannelIndices: append([]int(nil), m.Chans...), MixFractions: append([]float64(nil), m.Fractions...)})
 			if err != nil {
 				return vFailf("mix-rejected", "ConfigureMixFraction(%v,%v): %v", m.Chans, m.Fractions, err)
@@ -826,6 +848,9 @@ loop:
 	if len(ext) > 0 {
 		v.Classes = append(v.Classes, "ext-trigger")
 	}
+	if refusedReconf {
+		v.Classes = append(v.Classes, "refused-reconfigure-before-mix")
+	}
 	if len(c.Mix) > 0 {
 		v.Classes = append(v.Classes, "mix-change")
 	}
@@ -898,6 +923,9 @@ func c04Gen(t *rapid.T) c04Case {
 			for q := 0; q < nch; q++ {
 				m.Chans = append(m.Chans, 2*rapid.IntRange(0, W-1).Draw(t, "mixchan")+1)
 				m.Fractions = append(m.Fractions, rapid.SampledFrom([]float64{0, 0.5, 1, -1, 0.125, 3.7, -250, 1e4, 1e-3}).Draw(t, "mixfrac"))
+			}
+			if rapid.IntRange(0, 2).Draw(t, "reconf") == 0 {
+				m.Reconf = rapid.SampledFrom([]int{1, 2, 8, 16}).Draw(t, "reconfnsamp")
 			}
 			c.Mix = append(c.Mix, m)
 		}
